@@ -343,7 +343,7 @@ func c09EnableResult(c *Ctx, k *core, helper *ssa.Function) {
 					uses = append(uses, ld)
 				}
 			}
-			if len(uses) < 2 {
+			if len(uses) == 0 {
 				uses = []ssa.Instruction{nil}
 			}
 			for _, use := range uses {
@@ -362,6 +362,16 @@ func c09EnableResult(c *Ctx, k *core, helper *ssa.Function) {
 						return x
 					}
 					e, v, tok = zc("err"), zc("v"), zc("tok")
+				}
+				// values that come out of a folded helper as joined results are taken on their live outcome
+				if e != nil {
+					e = livePhiValue(e, at)
+				}
+				if v != nil {
+					v = livePhiValue(v, at)
+				}
+				if tok != nil {
+					tok = livePhiValue(tok, at)
 				}
 				name := relName(f) + "#reply"
 				switch {
@@ -437,7 +447,7 @@ func c09EnableResult(c *Ctx, k *core, helper *ssa.Function) {
 			c.check(fromReply(rv[0], "v") && fromReply(rv[1], "tok"), "enable-result", name+"-reply", r.Pos(),
 				"returns exactly (reply.v, reply.tok, reply.err) of the monitor's answer", "the watcher path does not return the config/serial the monitor verified and answered")
 		case isNilConst(rv[2]):
-			cv, ct := k.vvCall(rv[0], 0), k.vvCall(rv[1], 1)
+			cv, ct := k.vvCall(livePhiValue(rv[0], r.Block()), 0), k.vvCall(livePhiValue(rv[1], r.Block()), 1)
 			okp := cv != nil && cv == ct
 			if okp && len(vis) == 1 && (vis[0].Call.Block().Dominates(r.Block()) || vis[0].from().Dominates(r.Block())) {
 				okp = vis[0].Recv != nil && recvIs(vis[0].Recv, func(x ssa.Value) bool { return k.vvCall(x, 0) == cv })
